@@ -54,6 +54,16 @@ func memoryGasCost(mem *Memory, newMemSize uint64) (uint64, error) {
 	return 0, nil
 }
 
+// magnifyGas applies the Proposal026 magnification to a dynamic gas cost that already contains a
+// magnified memory fee; the product can exceed 64 bits
+func magnifyGas(gas uint64) (uint64, error) {
+	magnified, overflow := utility.SafeMul(gas, common.GasMagnification)
+	if overflow {
+		return 0, ErrGasUintOverflow
+	}
+	return magnified, nil
+}
+
 // memoryCopierGas creates the gas functions for the following opcodes, and takes
 // the stack position of the operand which determines the size of the data to copy
 // as argument:
@@ -82,7 +92,7 @@ func memoryCopierGas(stackpos int) gasFunc {
 			return 0, ErrGasUintOverflow
 		}
 		if common.IsProposal026() {
-			return gas * common.GasMagnification, nil
+			return magnifyGas(gas)
 		}
 		return gas, nil
 	}
@@ -143,7 +153,7 @@ func makeGasLog(n uint64) gasFunc {
 			return 0, ErrGasUintOverflow
 		}
 		if common.IsProposal026() {
-			return gas * common.GasMagnification, nil
+			return magnifyGas(gas)
 		}
 		return gas, nil
 	}
@@ -165,7 +175,7 @@ func gasSha3(evm *EVM, contract *Contract, stack *Stack, mem *Memory, memorySize
 		return 0, ErrGasUintOverflow
 	}
 	if common.IsProposal026() {
-		return gas * common.GasMagnification, nil
+		return magnifyGas(gas)
 	}
 	return gas, nil
 }
@@ -203,7 +213,7 @@ func gasCreate2(evm *EVM, contract *Contract, stack *Stack, mem *Memory, memoryS
 		return 0, ErrGasUintOverflow
 	}
 	if common.IsProposal026() {
-		return gas * common.GasMagnification, nil
+		return magnifyGas(gas)
 	}
 	return gas, nil
 }
